@@ -31,12 +31,13 @@ ASSUMPTIONS = [
     "because the receiver cannot know the packet is a data packet",
     "verdict window: the cycle the last CRC32 byte arrives, or the cycle after it (allows a registered report)",
 ]
-BOUNDS = "BMC from reset, one query per scripted framing (K = script length + 3, 14..30): quick 8 framings (lengths 0,1,2,3,4,5; gap before CRC / in header / in payload / before DPPSTART; second packet; bad header; non-data header); thorough: every length 0..9 x one invalid cycle at every position, gaps everywhere, three packets back to back"
+BOUNDS = "BMC from reset, one query per scripted framing (K = script length + 3, 14..30): quick 9 framings (lengths 0,1,2,3,4,5; gap before CRC / in header / in payload / before DPPSTART; second packet; bad header; non-data header; header without payload directly before a data packet); thorough: header-only packets (valid, two in a row, corrupted) directly before a data packet, every length 0..9 x one invalid cycle at every position, gaps everywhere, three packets back to back"
 OUTSIDE = "ill-framed payloads (K symbols inside the payload, missing END framing, DPPABORT/EDB endings); payloads " \
-          "longer than the depth allows (~ (K-8)*4 bytes); a DATA header not followed by DPPSTART but directly by HPSTART"
+          "longer than the depth allows (~ (K-8)*4 bytes); a header packet cut short by the next HPSTART"
 
 
-# FINDINGS (DataPacketReceiver.CHECK_CRC32, luna/gateware/usb/usb3/link/data.py; fixed in /repo by 4c60ef1 and 34d2b38)
+# FINDINGS (DataPacketReceiver, luna/gateware/usb/usb3/link/data.py; 1-3 in CHECK_CRC32, fixed in /repo by 4c60ef1
+# and 34d2b38)
 #  1. `m.next = "WAIT_FOR_HPSTART"` was indented under `m.Else()`: after a *good* verdict the FSM stayed in
 #     CHECK_CRC32, compared the following word(s) again and reported packet_bad one cycle later (packet_good forever
 #     for a zero-length payload).  Seen as verdict_time / verdict_once in every framing.
@@ -46,6 +47,13 @@ OUTSIDE = "ill-framed payloads (K symbols inside the payload, missing END framin
 #  3. data_length = 0: no Switch case matched previous_valid == 0, data_to_check was 0 == CRC32 register's reset
 #     output, so a zero-length payload with a corrupted CRC32 was reported good (verdict_value, cover bad_crc32
 #     vacuous in framing zlp).
+#  4. (CHECK_HEADER; open, findings/C40_hpstart_after_header.patch)  CHECK_HEADER looks at the word that follows DW3
+#     only for DPPSTART and then returns to WAIT_FOR_HPSTART, which starts looking one word later.  A header packet
+#     that passes the type test and is not followed by a payload (a deferred data packet header: the hub forwards the
+#     header and drops the payload) can be followed directly by the next header packet; its HPSTART is the word
+#     CHECK_HEADER passes over, so a complete, valid data packet behind it gets no verdict and no payload output
+#     (verdict_missing / length, covers good / bad_crc32 vacuous in framings hp_only_then_*).  Same word is lost
+#     when the header-only packet fails its CRC16/CRC5 (framing hdrbad_hp_only_then_len4).
 #  Not a finding (reading kept): for a header with corrupted CRC16/CRC5 nothing is reported; the check demands only
 #  "never good, no payload output".
 #  Code reading only, outside the bounds: a K symbol in the *last* payload word strobes packet_bad and still enters
@@ -214,12 +222,16 @@ def _cfgs(tier):
         # two CRC computations (see module docstring)
         ("len1_then_hdrbad_len4", [P(1, gaps=[6]), P(4, hdr="bad", idle=2)], ok + ["hdr_bad"]),
         ("zlp_then_notdata_len2", [P(0, gaps=[6]), P(2, hdr="notdata", idle=2)], ok + ["not_data"]),
+        # a valid DATA header without a payload (deferred data packet header), the next packet directly behind it
+        ("hp_only_then_len2", [P(None), P(2, idle=2)], ok),
     ]
     if tier == "thorough":
         cf += [("len8_gap_before_dpp", [P(8, gaps=[5, 8], idle=2)], ok + ["tracked_word"]),
                ("hdrbad_len4_then_len1", [P(4, hdr="bad"), P(1, gaps=[6], idle=2)], ok + ["hdr_bad"]),
                ("len7_gap_before_crc", [P(7, gaps=[8], idle=2)], ok + ["partial_word_out"]),
-               ("hp_only_then_len4", [P(None), P(4, gaps=[6, 7], idle=2)], ok)]
+               ("hp_only_then_len4", [P(None), P(4, gaps=[6, 7], idle=2)], ok),
+               ("hp_only_x2_then_zlp", [P(None), P(None), P(0, idle=2)], ok),
+               ("hdrbad_hp_only_then_len4", [P(None, hdr="bad"), P(4, gaps=[6], idle=2)], ok)]
     if tier == "thorough":
         # every length 0..9 x one invalid cycle at every position of the packet (incl. none)
         for L in range(10):
@@ -232,12 +244,19 @@ def _cfgs(tier):
     return cf
 
 
+# framing in which a header the DUT must reject precedes a checked packet (the DUT's state after the symbolic reject
+# decision is not a constant, so the second header's CRC16 terms no longer coincide): the default pipeline decides
+# neither verdict_missing nor length in 300 s; with the engine's "portfolio" the contextual simplifier decides
+# verdict_missing in ~25 s.  length stays undecided (320 s; a case split CRC16-mask / CRC5-mask did not help either).
+TACTIC = {"hdrbad_len4_then_len1": "portfolio"}
+
+
 def queries(tier):
     qs = []
     for name, packets, covers in _cfgs(tier):
         f = (lambda packets=packets: DataRxHarness(packets))
         K = f().K
-        qs.append(Query(f"bmc_{name}", f, K, covers=covers, split=False, timeout=300,
+        qs.append(Query(f"bmc_{name}", f, K, covers=covers, split=False, timeout=300, tactic=TACTIC.get(name),
                         desc=f"scripted framing {name}: lengths/gap positions concrete, all data, CRC masks, junk and "
                              "following traffic symbolic"))
     f2 = lambda: DataRxHarness([dict(length=5, gaps=(7,), hdr_masks="zero", type=8), dict(length=0, idle_after=1),
